@@ -1,7 +1,7 @@
 (* C09  Derived Arbitrary is total and yields only valid values, for every byte input.
    Integers: proved below.  Strings and floats: see the later sections of this file. *)
 From NV Require Import Base.Util Base.IntTy Base.Expr Macro.Surface Macro.Ast
-     Sem.Guard Sem.Value Sem.Eval Sem.Bytes Sem.ArbInt Spec.GuardSpec
+     Sem.Guard Sem.Value Sem.Eval Sem.Bytes Sem.ArbInt Sem.ArbStr Sem.ArbFloat Spec.GuardSpec
      Lemmas.BytesLemmas Lemmas.ArbIntLemmas Run.Runner.
 Local Open Scope Z_scope.
 Local Open Scope string_scope.
@@ -49,3 +49,52 @@ Proof.
   vm_compute. auto.
 Qed.
 Print Assumptions C09_int_sanitizer_refuted.
+
+(* --- strings and floats: recorded finding classes, each with a machine-checked witness ---- *)
+
+Definition ex_decl (fam : family) (ss : list sanitizer) (vs : list validator) : decl :=
+  {| d_family := fam; d_name := "T"; d_vis := "pub"; d_generics := []; d_sans := ss;
+     d_validation := Some (RVStandard vs); d_new_unchecked := false; d_const_fn := false;
+     d_default := None; d_traits := [TrArbitrary]; d_env := [] |}.
+
+(* KNOWN FINDING str_case_sanitizer_with_len_char_max: sanitize(uppercase),
+   validate(len_char_max = 1); bytes 01 DF 00 00 00 generate U+00DF, upper-cased to "SS" *)
+Theorem C09_str_case_refuted :
+  exists (d : decl) (bs : bytes), bytes_ok bs = true /\ arb_str (the_lib d) d bs = OPanic.
+Proof. exists (ex_decl FStr [SUppercase] [VLenCharMax (BLit 1)]), [1; 223; 0; 0; 0]. vm_compute. auto. Qed.
+Print Assumptions C09_str_case_refuted.
+
+(* the repaired not_empty / len_char_min interplay: one zero byte now yields three chars *)
+Example C09_str_not_empty_min_fixed :
+  let d := ex_decl FStr [] [VNotEmpty; VLenCharMin (BLit 3)] in
+  arb_str (the_lib d) d [0] = OOk (VS [0; 0; 0]%N).
+Proof. vm_compute. reflexivity. Qed.
+
+(* KNOWN FINDING float_exclusive_bound_delta_absorbed: validate(greater = 64.0) on f32, empty
+   input: base 0.0, x = 64.0, 64.0 + 0.000002 = 64.0, rejected *)
+Theorem C09_float_delta_absorbed_refuted :
+  exists (d : decl) (bs : bytes), bytes_ok bs = true /\ arb_float (the_lib d) d bs = OPanic.
+Proof. exists (ex_decl (FFloat false) [] [VGreater (BLit 1115684864)]), []. vm_compute. auto. Qed.
+Print Assumptions C09_float_delta_absorbed_refuted.
+
+(* KNOWN FINDING float_exclusive_bound_delta_exceeds_range: (1e-40, 1e-39) on f32 *)
+Theorem C09_float_delta_exceeds_range_refuted :
+  exists (d : decl) (bs : bytes), bytes_ok bs = true /\ arb_float (the_lib d) d bs = OPanic.
+Proof. exists (ex_decl (FFloat false) [] [VGreater (BLit 71362); VLess (BLit 713624)]), []. vm_compute. auto. Qed.
+Print Assumptions C09_float_delta_exceeds_range_refuted.
+
+(* KNOWN FINDING float_two_sided_range_overflow: finite, [-3e38, 3e38) on f32: range = inf,
+   0.0 * inf = NaN *)
+Theorem C09_float_range_overflow_refuted :
+  exists (d : decl) (bs : bytes), bytes_ok bs = true /\ arb_float (the_lib d) d bs = OPanic.
+Proof.
+  exists (ex_decl (FFloat false) [] [VGreaterOrEqual (BLit 4284592614); VFinite; VLess (BLit 2137108966)]), [].
+  vm_compute. auto.
+Qed.
+Print Assumptions C09_float_range_overflow_refuted.
+
+(* the repaired two-sided case: greater = 0.0, less_or_equal = 1.0 on f64, eight zero bytes *)
+Example C09_float_two_sided_fixed :
+  let d := ex_decl (FFloat true) [] [VGreater (BLit 0); VLessOrEqual (BLit 4607182418800017408)] in
+  arb_float (the_lib d) d [0; 0; 0; 0; 0; 0; 0; 0] = OOk (VF 4391576639459776022).
+Proof. vm_compute. reflexivity. Qed.
